@@ -12,6 +12,12 @@ SerialInc(s) ==
     ELSE IF s[1] < 65535 THEN <<s[1] + 1, 0>>
     ELSE <<0, 0>>
 
+\* (a + d) mod 2^32 for pairs
+SerialPlus(a, d) ==
+    LET lo == a[2] + d[2]
+        c  == IF lo >= 65536 THEN 1 ELSE 0
+    IN  <<(a[1] + d[1] + c) % 65536, lo % 65536>>
+
 \* (b - a) mod 2^32, again as a pair
 SerialDiff(a, b) ==
     LET borrow == IF b[2] < a[2] THEN 1 ELSE 0
